@@ -12,7 +12,8 @@
 (*   sent  : << <<s, k>> ... >>   (server, key) of every command the servers *)
 (*                               received in this call                      *)
 (*   found : << <<k, v>> ... >>   (reads) key ids returned with value ids    *)
-(*   kind  : "write" (v = value id written to every item), "read", "delete"  *)
+(*   kind  : "write" (v = value id written to every item), "read", "delete",  *)
+(*           "other" (routing only: the call changes no value)              *)
 (* event [e |-> "servers"]: the server set was changed by the caller.        *)
 (* The monitor remembers where each (routing key) was placed and what each  *)
 (* (server, key) holds.                                                     *)
@@ -53,7 +54,7 @@ PMonEffect(m, ev) ==
   LET newplace == [r \in DOMAIN m.place \cup { p[1] : p \in SeqSet(ev.placed) } |->
                       IF r \in DOMAIN m.place THEN m.place[r] ELSE PlaceOf(ev, r)]
       touched == { <<PlaceOf(ev, it[1]), it[2]>> : it \in SeqSet(ev.items) }
-      newheld == IF ev.kind = "read" THEN m.held
+      newheld == IF ev.kind \in {"read", "other"} THEN m.held       \* "other": touch / stale cas / incr of a missing key
                  ELSE [x \in DOMAIN m.held \cup touched |->
                          IF x \in touched THEN (IF ev.kind = "write" THEN ev.v ELSE 0) ELSE m.held[x]]
   IN [place |-> newplace, held |-> newheld]
